@@ -101,6 +101,7 @@ class Tr:
         self.optional_as_value = []
         self.done = {}           # python method name -> True (translated) / False
         self.consts = {}         # module-level / class-level literal constants: name -> value
+        self.enum_consts = {}    # ... constants that are a tuple / list / set / frozenset of LockResult members
         for src in (types_src, ctrl_src):
             tree = ast.parse(src)
             scopes = [tree.body] + [n.body for n in tree.body if isinstance(n, ast.ClassDef)]
@@ -111,16 +112,31 @@ class Tr:
                         tgt, val = n.targets[0].id, n.value
                     elif isinstance(n, ast.AnnAssign) and isinstance(n.target, ast.Name) and n.value is not None:
                         tgt, val = n.target.id, n.value
-                    if tgt is not None:
-                        try:
-                            v = ast.literal_eval(val)
-                        except Exception:
-                            continue
-                        if v is None or isinstance(v, (bool, int)):
-                            self.consts[tgt] = v
+                    if tgt is None:
+                        continue
+                    if self.enum_members(val) is not None:
+                        self.enum_consts[tgt] = self.enum_members(val)
+                        continue
+                    try:
+                        v = ast.literal_eval(val)
+                    except Exception:
+                        continue
+                    if v is None or isinstance(v, (bool, int)):
+                        self.consts[tgt] = v
         self.inline_depth = 0
 
     # ------------------------------------------------------------------------------------------ helpers
+    @staticmethod
+    def enum_members(n):
+        """[Lean names] if `n` is a tuple / list / set literal or frozenset/tuple/set(...) of LockResult members"""
+        if isinstance(n, ast.Call) and isinstance(n.func, ast.Name) and n.func.id in ("frozenset", "set", "tuple", "list") \
+                and len(n.args) == 1 and not n.keywords:
+            n = n.args[0]
+        if isinstance(n, (ast.Tuple, ast.List, ast.Set)) and n.elts and all(
+                isinstance(e, ast.Attribute) and is_name(e.value, "LockResult") and e.attr in LOCKRESULT for e in n.elts):
+            return [LOCKRESULT[e.attr] for e in n.elts]
+        return None
+
     def coerce(self, code, t, want, node):
         if t == want:
             return code
@@ -256,6 +272,16 @@ class Tr:
         bad(node, f"truthiness of {t}")
 
     def compare(self, a, op, b, env, node):
+        if isinstance(op, (ast.In, ast.NotIn)):
+            members = self.enum_members(b)
+            if members is None and isinstance(b, ast.Name) and b.id not in env["locals"]:
+                members = self.enum_consts.get(b.id)
+            if members is not None:
+                ca, ta = self.ex(a, env)
+                if ta != "lockresult":
+                    bad(node, f"`in` a set of LockResult members on {ta}")
+                test = "(" + " || ".join(f"({ca} == {m})" for m in members) + ")"
+                return test if isinstance(op, ast.In) else f"(!{test})"
         (ca, ta), (cb, tb) = self.ex(a, env), self.ex(b, env)
         if isinstance(op, (ast.Is, ast.IsNot)):
             if tb != "none" or ta != "onat":
